@@ -164,8 +164,11 @@ func buildTree(t *rapid.T) *tree {
 		canon := ancestors(head)
 		// parent: mostly the head (extension), otherwise a canonical ancestor (sibling / fork)
 		parent := head
+		var forkChild *mblock // the canonical block right after the fork point
 		if len(canon) > 1 && rapid.IntRange(0, 9).Draw(t, "fork") < 4 {
-			parent = canon[rapid.IntRange(1, len(canon)-1).Draw(t, "forkDepth")]
+			d := rapid.IntRange(1, len(canon)-1).Draw(t, "forkDepth")
+			parent = canon[d]
+			forkChild = canon[d-1]
 		}
 		height := parent.hdr.Height + 1
 		if rapid.IntRange(0, 7).Draw(t, "gap") == 0 {
@@ -180,7 +183,25 @@ func buildTree(t *rapid.T) *tree {
 		if inc < 0 {
 			inc = 0
 		}
-		pv := big.NewInt(int64(rapid.IntRange(1, 3).Draw(t, "pv")))
+		pv := big.NewInt(int64(rapid.IntRange(1, 5).Draw(t, "pv")))
+		// a fork two or more blocks deep with the same cumulative QN as the head is decided by the prove values at
+		// the fork point: aim some of them between the prove value of the local block after the fork point and
+		// that of the local tip, so that comparing with the wrong one of the two gives the opposite answer
+		if forkChild != nil && forkChild != head && rapid.IntRange(0, 2).Draw(t, "aimEqualWeightFork") == 0 {
+			target = int64(head.hdr.TotalQN)
+			inc = target - int64(parent.hdr.TotalQN)
+			if inc < 0 {
+				inc = 0
+			}
+			a, b := forkChild.hdr.ProveValue.Int64(), head.hdr.ProveValue.Int64()
+			if a > b {
+				a, b = b, a
+			}
+			if b-a >= 2 {
+				pv = big.NewInt(a + 1 + int64(rapid.IntRange(0, int(b-a-2)).Draw(t, "pvBetween")))
+				stats.Class("build_equal_weight_deep_fork_pv_between_forkpoint_and_tip")
+			}
+		}
 		// transactions: any not executed on the path genesis..parent
 		used := map[common.Hash]bool{}
 		for _, a := range ancestors(parent) {
